@@ -171,6 +171,13 @@ impl Oracle for RttSampleOracle {
                 },
                 uv::trace::Event::Feedback { now_ms, rtt_sample_ms, .. } => {
                     let (pending, unknown) = (self.pending.take(), std::mem::take(&mut self.unknown));
+                    // a report needs at least one frame acknowledged for the first time since the
+                    // previous report: an acknowledgement that was already reported must not
+                    // move RTT, rate or timers a second time
+                    if pending.is_none() && !unknown {
+                        let d = format!("sender {}: feedback reported at {} ms (RTT sample {} ms) although no frame has been acknowledged for the first time since the previous report", ep, now_ms, rtt_sample_ms);
+                        return Some(Violation { property: self.property.into(), clause: "feedback_without_fresh_ack".into(), detail: d, at_call: *call });
+                    }
                     if let (Some(t), false) = (pending, unknown) {
                         self.checked += 1;
                         let expected = now_ms.saturating_sub(t);
